@@ -21,6 +21,7 @@ type Group struct {
 	sem    byte
 }
 
+//go:norace
 func WithContext(ctx context.Context) (*Group, context.Context) {
 	ctx2, cancel := WithCancel(ctx)
 	return &Group{cancel: cancel}, ctx2
@@ -31,6 +32,7 @@ type egChild struct {
 	f func() error
 }
 
+//go:norace
 func (c *egChild) run() {
 	g := c.g
 	err := c.f()
@@ -56,6 +58,7 @@ func (c *egChild) run() {
 	g.n--
 }
 
+//go:norace
 func (g *Group) Go(f func() error) {
 	if S == nil {
 		g.mu.Lock()
@@ -84,6 +87,7 @@ func (g *Group) Go(f func() error) {
 	Go(c.run)
 }
 
+//go:norace
 func (g *Group) Wait() error {
 	if S == nil {
 		err := g.real.Wait()
